@@ -554,13 +554,41 @@ func TestC05BlockOverAlteredFrames(t *testing.T) {
 			total += len(f)
 			prev = c
 		}
+		// Frames with an empty payload are legal anywhere in the sequence: a read that meets one
+		// gets zero bytes and no error from the decompressor and has to carry on.
+		if ne := rapid.IntRange(0, 2).Draw(rt, "empty-frames"); ne > 0 {
+			for i := 0; i < ne; i++ {
+				at := rapid.IntRange(0, len(frames)-1).Draw(rt, "empty-frame-at") // never behind the last piece: nothing reads on after the block
+				ef, err := libCompress(ms[rapid.IntRange(0, len(ms)-1).Draw(rt, "empty-frame-method")], nil)
+				if err != nil {
+					rt.Fatalf("compress(empty): %v", err)
+				}
+				frames = append(frames[:at], append([][]byte{ef}, frames[at:]...)...)
+				cuts = append(cuts[:at], append([]int{0}, cuts[at:]...)...)
+				if at > 0 {
+					cuts[at] = cuts[at-1]
+				}
+			}
+			starts = starts[:0]
+			total = 0
+			for _, f := range frames {
+				starts = append(starts, total)
+				total += len(f)
+			}
+			st.Label("stream-with-empty-frames")
+		}
 		stream := bytes.Join(frames, nil)
 		inferable := true
 		for _, c := range cols {
 			inferable = inferable && autoInferable(c.Kind.T.Name)
 		}
 		if err := decodeTypedCompressed(stream, rev, cols, false); err != nil {
-			rt.Fatalf("harness: intact stream of %d frames does not decode: %v", len(frames), err)
+			rt.Fatalf("harness: intact stream of %d frames (cuts %v) does not decode: %v", len(frames), cuts, err)
+		}
+		if inferable {
+			if err := decodeTypedCompressed(stream, rev, cols, true); err != nil {
+				rt.Fatalf("intact stream of %d frames (cuts %v) does not decode into inferred columns: %v", len(frames), cuts, err)
+			}
 		}
 		// Alter one byte of a frame after the first (the first is covered by TestC05Alterations).
 		fi := rapid.IntRange(1, len(frames)-1).Draw(rt, "altered-frame")
